@@ -91,6 +91,25 @@ def work(case: Any) -> Any:
                 # the two conversions agree with each other
                 if pep440_to_semver(pep(rel, pre)) != s2 or semver_to_pep440(s2) != pep(rel, pre):
                     v.append(("conversions_disagree", {"pre": pre is not None}, f"{pep(rel, pre)!r} <-> {s2!r}: {pep440_to_semver(pep(rel, pre))!r}, {semver_to_pep440(s2)!r}"))
+    elif kind == "roundtrip_len":
+        # PEP 440 release tuples need not have three components: 1, 2, 4 and 5 components, with and without a pre-release
+        small = [0, 1, 10] if tier == "quick" else [0, 1, 2, 10, 99]
+        for ln in (1, 2, 4, 5):
+            for rel in itertools.product(small if ln < 5 else small[:3], repeat=ln):
+                for pre in PRES:
+                    s = pep(rel, pre)  # type: ignore[arg-type]
+                    want = str(Version(s))
+                    for sp in (s, "v" + s) + ((f"{'.'.join(map(str, rel))}-{pre[0]}.{pre[1]}",) if pre is not None else ()):
+                        n += 1
+                        nontriv += pre is not None
+                        try:
+                            got = semver_to_pep440(pep440_to_semver(sp))
+                        except Exception as e:  # noqa: BLE001
+                            v.append(("pep440_round_trip_raises", {"pre": pre is not None, "release_components": ln}, f"{sp!r}: {type(e).__name__}: {e}"))
+                            continue
+                        if str(Version(got)) != want:
+                            v.append(("pep440_round_trip_changes_version", {"pre": pre is not None, "release_components": ln},
+                                      f"semver_to_pep440(pep440_to_semver({sp!r})) = {got!r}, normalized original {want!r}"))
     else:
         all_spell = kind == "classify4"
         rels = list(itertools.product(cs if not all_spell else [c for c in cs if c in (0, 1, 2, 10)], repeat=3))
@@ -127,14 +146,14 @@ def work(case: Any) -> Any:
 
 RULE = ("release triples over the component grid {0,1,2,10} (quick) / {0,1,2,9,10,11,99,100} (thorough) x pre-release {none, a/b/rc x "
         "{0,1,10}}: PEP 440 -> semver -> PEP 440 over 3-7 input spellings per version (case, separators, alpha/beta/c aliases, leading v) "
-        "and semver -> PEP 440 -> semver; detect_change_type on ALL ordered pairs (both arguments in PEP 440 spelling; on the 4-value "
+        "and semver -> PEP 440 -> semver; the PEP 440 round trip also for release tuples of 1, 2, 4 and 5 components; detect_change_type on ALL ordered pairs (both arguments in PEP 440 spelling; on the 4-value "
         "component grid also semver/semver and both mixed spellings), compared with packaging.Version ordering and 'first release "
         "component that differs'; pairs where only the pre-release part grew are evaluated but not judged; non-trivial = pre-release "
         "versions / pairs classified other than none")
 
 
 def run(tier: str, seed: int) -> Any:
-    cases = [("roundtrip", tier, 0)] + [("classify4", tier, c) for c in range(16)]
+    cases = [("roundtrip", tier, 0), ("roundtrip_len", tier, 0)] + [("classify4", tier, c) for c in range(16)]
     if tier != "quick":
         cases += [("classify", tier, c) for c in range(16)]
     return run_grid(PID, RULE, cases, work, seed=seed, chunksize=1, assumptions=[
